@@ -166,5 +166,16 @@ func specsLatency(tier string) []seqmc.Spec {
 		cfg.ops = append(cfg.ops, "advance", "update")
 		out = append(out, seqmc.Spec{Name: fmt.Sprintf("latency windows 2p,4p precision=%dns", prec), Ops: cfg.ops, Depth: depth, New: func() seqmc.Sys { return newLatSys(cfg) }})
 	}
+	// a short window next to a long one (the long one spans more than 64
+	// refresh periods): windows must not influence each other
+	for _, ws := range [][]int64{{1 * period, 128 * period}, {2 * period, 256 * period}} {
+		cfg := &latCfg{windows: ws, precision: 1}
+		for _, l := range []int64{1, 9} {
+			cfg.ops = append(cfg.ops, fmt.Sprintf("compute(%d)", l))
+		}
+		cfg.ops = append(cfg.ops, "advance", "update")
+		d := depth + 3
+		out = append(out, seqmc.Spec{Name: fmt.Sprintf("latency windows %dp,%dp (short next to long)", ws[0]/period, ws[1]/period), Ops: cfg.ops, Depth: d, New: func() seqmc.Sys { return newLatSys(cfg) }})
+	}
 	return out
 }
